@@ -79,6 +79,13 @@ def check(toks, resp, mode, build):
         if resp.raw != want:
             raise RuntimeError("monitor's SipHash-2-4 disagrees with the driver's hasher on a plain pair")
         return "ok", "hashpair(selfcheck)", False, want
+    if op == "hashseq":
+        c, s_ = E.pD(toks[1])
+        n, d = reduced(c, s_)
+        if (n, d) != (int(toks[2]), int(toks[3])):
+            raise RuntimeError("hashseq request carries a wrong reduced pair")
+        ok = resp.kind == "U" and len(resp.f) == 2 and resp.f[0] == resp.f[1]
+        return ("ok" if ok else "viol"), "hashseq", s_ > 0, "Decimal and its (n, d) pair make the same sequence of typed Hasher calls"
     if op == "hash":
         c, s = E.pD(toks[1])
         n, d = reduced(c, s)
@@ -101,8 +108,62 @@ def check(toks, resp, mode, build):
     raise ValueError(op)
 
 
+def gcd_passes(numer, exp):
+    """Number of passes of a binary (Stein) gcd of |numer| and 10^exp with the powers of two stripped first.
+    Classification only (which inputs make the reduction loop run longest); never used as an oracle."""
+    u = abs(numer)
+    u >>= (u & -u).bit_length() - 1
+    v = 5 ** exp
+    n = 0
+    while v:
+        n += 1
+        v >>= (v & -v).bit_length() - 1
+        if u > v:
+            u, v = v, u
+        v -= u
+    return n
+
+
+def long_chains(rng, budget):
+    """Hill-climb towards coefficients whose reduction takes unusually many passes (iteration-bounded loops,
+    early exits and 'average case' shortcuts fail here first)."""
+    best = []
+    for exp in (18, 17, 1, 2, 9):
+        pool = []
+        for _ in range(budget):
+            c = rng.getrandbits(127) | (1 << 126) | 1
+            pool.append((gcd_passes(c, exp), c))
+        pool.sort(reverse=True)
+        top = pool[:6]
+        # local search around the best candidates: flip low / middle bits
+        for score, c in list(top):
+            cur_s, cur = score, c
+            for _ in range(budget // 4):
+                cand = cur ^ (1 << rng.randrange(1, 126))
+                if cand > M:
+                    continue
+                sc = gcd_passes(cand, exp)
+                if sc >= cur_s:
+                    cur_s, cur = sc, cand
+            top.append((cur_s, cur))
+        top.sort(reverse=True)
+        for score, c in top[:8]:
+            best.append((c, exp, score))
+    return best
+
+
 def constructed(rng):
     out = []
+    for k in range(100, 127):
+        for off in range(0, 40):
+            for s in (1, 2, 18):
+                c = (1 << k) - off
+                out.append("ratio %s" % G.fD(c, s))
+                out.append("hash %s" % G.fD(-c, s))
+    for off in range(0, 64):
+        for s in (1, 2, 3, 18):
+            out.append("ratio %s" % G.fD(M - off, s))
+            out.append("hash %s" % G.fD(-(M - off), s))
     for i in range(0, 127, 3):
         for j in range(0, 19):
             u = rng.choice((1, 3, 7, 11, rng.getrandbits(20) | 1))
@@ -143,6 +204,10 @@ _CON = None
 def gen(rng, tier, shard, batch):
     global _CON
     reqs = []
+    for c, exp, score in long_chains(rng, 400 if tier == "quick" else 2000):
+        for cc in (c, -c):
+            reqs.append("ratio %s" % G.fD(cc, exp))
+            reqs.append("hash %s" % G.fD(cc, exp))
     if batch == 0:
         if _CON is None:
             _CON = constructed(random.Random(20260109))
@@ -158,6 +223,8 @@ def gen(rng, tier, shard, batch):
         reps = G.representations(c, s)
         for r in reps:
             reqs.append("hash %s" % G.fD(*r))
+        n_, d_ = reduced(c, s)
+        reqs.append("hashseq %s %d %d" % (G.fD(*rng.choice(reps)), n_, d_))
         r = rng.choice(reps)
         reqs.append("ratio %s" % G.fD(*r))
         if rng.random() < 0.2:
@@ -176,4 +243,18 @@ def gen(rng, tier, shard, batch):
     return reqs
 
 
-main = C.standard_main(sys.modules[__name__])
+def main(tier, seed):
+    """Line-protocol monitor, then an in-process bulk monitor: as_integer_ratio / numerator / denominator of tens of
+    millions of full-width coefficients against the 2- and 5-adic valuations (long reduction chains are rare,
+    P(> 100 passes) ~ 1e-7 per sample: volume is what reaches them)."""
+    from .. import build as B
+    code, ev = E.run_property(sys.modules[__name__], tier, seed)
+    binary = B.build("release", ())
+    sw = E.run_sweep(binary, ["--sweep-ratio", 1500000 if tier == "quick" else 100000000, seed, E.NCPU], timeout=6000)
+
+    def rl(ex):
+        parts = ex.split(" ")
+        return "ratio %s" % parts[2]
+    code = E.fold_sweep(ID, code, ev, "ratio_bulk_sweep", sw, tier, seed, rl)
+    E.write_evidence(ID, ev)
+    return code
